@@ -477,6 +477,39 @@ def accepted_widths(ctx, R, f, tag):
     ctx.check(R, not rejected, tag + ':accepts-1..8', '%s panics for width(s) %s although 1..8 are all valid widths of the format: a value that needs that many bytes can be written but not read back (or not written at all)' % (tag, sorted(rejected)), fn=f)
 
 
+def _pack_size_loop(f):
+    """K for `size = 1; while size < K && (n >> (8 * size)) != 0 { size += 1 } size`; None if the loop is not of that form"""
+    K = None
+    inc = shr = False
+    init1 = False
+    for p in explore(f, max_visits=1, havoc=True):
+        for d in p.decisions:
+            e = d[2]
+            if e[0] == 'bin' and e[1] in ('Lt', 'Le', 'Ge', 'Gt') and e[3][0] == 'const' and e[2][0] in ('havoc', 'const'):
+                c = e[3][1]
+                K = c if e[1] in ('Lt', 'Ge') else c + 1
+            if e[0] == 'bin' and e[1] in ('Ne', 'Eq') and ('const', 0) in (e[2], e[3]):
+                o = e[2] if e[3] == ('const', 0) else e[3]
+                if o[0] == 'bin' and o[1] == 'Shr' and o[2][0] == 'param' and o[3][0] == 'bin' and o[3][1] == 'Mul' and ('const', 8) in (o[3][2], o[3][3]):
+                    shr = True
+        if p.end == 'cut':
+            for d in p.decisions:
+                for x in walk(d[2]):
+                    if x[0] == 'havoc' and len(x[1]) == 1:
+                        v = p.sym.loc_value_at(x[1], (len(p.blocks) - 2, 'T'))
+                        while v[0] == 'field' and v[2] == '0' and v[1][0] == 'bin' and v[1][1].endswith('WithOverflow'):
+                            v = ('bin', v[1][1][:-len('WithOverflow')], v[1][2], v[1][3])
+                        if v[0] == 'bin' and v[1] == 'Add' and v[2] == x and v[3] == ('const', 1):
+                            inc = True
+    for bid, b in f.blocks.items():
+        for st in b['stmts']:
+            if st['k'] == 'assign' and 'use' in st['rv'] and 'const' in st['rv']['use'] and st['rv']['use']['const'].get('scalar') in ('0x1', '0x01', '0x0000000000000001'):
+                init1 = True
+    if K is not None and inc and shr and init1 and f.local_ty(0) == 'u8':
+        return K
+    return None
+
+
 def packing(ctx):
     R = ctx.rule('R09.4', 'integer packing: little-endian, pack_size(n) = least k with n < 2^(8k), unpack mirrors', floor=14)
     lib = ctx.lib
@@ -486,7 +519,19 @@ def packing(ctx):
     else:
         seen = set()
         ivs = {}
-        for p in explore(f, max_visits=1):
+        loop_form = f.loops() and _pack_size_loop(f)
+        if f.loops() and loop_form is None:
+            ctx.undecided(R, 'pack_size:widths', 'pack_size is a loop the rule does not follow', fn=f)
+            seen = None
+        elif loop_form:
+            # size = 1; while size < K && (n >> (8 * size)) != 0 { size += 1 }  ->  least size in 1..K with n < 2^(8 size), else K
+            K = loop_form
+            ctx.check(R, K == 8, 'pack_size:widths', 'the counting loop of pack_size stops at %d bytes: a value that needs %s bytes is stored in %d and read back truncated' % (K, '8' if K < 8 else 'fewer', K), fn=f)
+            for k_ in range(1, 9):
+                if k_ < K or K == 8:
+                    ctx.check(R, True, 'pack_size:%d' % k_, '', fn=f)
+            seen = None
+        for p in (explore(f, max_visits=1) if seen is not None else []):
             if p.end != 'return':
                 continue
             rv = p.ret()
@@ -556,7 +601,9 @@ def packing(ctx):
             ctx.check(R, merged == [[want_lo, want_hi]], 'pack_size:%d' % k,
                       'pack_size returns %d for n in %s but %d bytes hold exactly [%#x, %#x]: a value on the boundary is stored in too few bytes and read back truncated' % (
                           k, ' u '.join('[%#x, %#x]' % (a_, b_) for a_, b_ in merged), k, want_lo, want_hi), fn=f)
-        if not seen and not ivs:
+        if seen is None:
+            pass
+        elif not seen and not ivs:
             ctx.undecided(R, 'pack_size:widths', 'pack_size is written in a form the rule does not follow (no width decided)', fn=f)
         else:
             ctx.check(R, seen == set(range(1, 9)), 'pack_size:widths', 'pack_size must produce every width 1..8 (found %s)' % sorted(seen), fn=f)
